@@ -178,7 +178,7 @@ pub fn make(p: Params) -> ScenarioFn {
             pair.client.disable_buffering();
             // every stream carries a 1-byte hello first so the server side accepts it
             for st in &cstreams {
-                if let Some(Err(e)) | Some(Err(e)) = within(pair.client.write_data_frame(st.id(), Bytes::from_static(b"H"))).await {
+                if let Some(Err(e)) = within(pair.client.write_data_frame(st.id(), Bytes::from_static(b"H"))).await {
                     out.viol("C01:write-failed", format!("hello: {e}"));
                     return out;
                 }
